@@ -148,6 +148,13 @@ def inline_helpers(tree, modname, ref_functions, log):
         owner = q.rsplit('.', 1)[0]          # module or module.Class
         # helpers to inline here: the new ones, and existing private helpers this function did not call in the reference tree
         called_before = set(ref_calls.get(q, ()))
+        # a helper of the reference that no longer exists was inlined into this function: its callees are now called here
+        present = {x.rsplit('.', 1)[-1] for x in funcs}
+        for hname in list(called_before):
+            if hname not in present:
+                for hq, hc in ref_calls.items():
+                    if hq.rsplit('.', 1)[-1] == hname and hq.rsplit('.', 1)[0] in (owner, modname):
+                        called_before |= set(hc)
         cand = dict(new_helpers)
         for hq, hfn in old_private.items():
             hname = hq.rsplit('.', 1)[-1]
@@ -404,7 +411,8 @@ def _inline_temps_once(fn, q, ref, log):
                 if not pairs or any(n in ref or n in params or len(stores.get(n, [])) != 1 for n, _ in pairs):
                     continue
                 # containers that are filled afterwards are objects, not values: never substitute them
-                if any(isinstance(v, (ast.List, ast.Dict, ast.Set, ast.ListComp, ast.DictComp, ast.SetComp)) for _, v in pairs):
+                if any(isinstance(v, (ast.List, ast.Dict, ast.Set, ast.ListComp, ast.DictComp, ast.SetComp)) and _is_mutated(fn, n)
+                       for n, v in pairs):
                     continue
                 # a value that is modified through the temporary must stay an object of its own, unless the temporary is a
                 # plain alias of an attribute path (`g = sample.geometry`): then the modification reaches the same object
